@@ -5220,3 +5220,299 @@ def c07_fifo_order(env):
 
 
 REGISTRY.setdefault("C07", []).append(c07_fifo_order)
+
+
+# ---- C11 / C10 / C01: the link-level splitter names the delivery on its first frame only ---------------------
+
+
+def c11_link_splitter(env):
+    """SenderLink::send_transfer_without_modifying_unsettled_map cuts a message larger than the link's
+    max-message-size into several transfers. The session stamps a NEW delivery-id on every transfer that carries a
+    delivery-tag (on_outgoing_transfer_inner, c11_delivery_id_stamping), so every frame after the first must go to
+    the session without a tag -- otherwise the frames of one delivery carry different delivery-ids.
+    The tag of the transfer saved across the awaits is followed as an abstract fact per resume state (fixed point):
+    'definitely None' or 'anything'."""
+    o = Obligation("c11_link_splitter_names_the_delivery_on_the_first_frame_only", "C11")
+    o.desc = "SenderLink::send_transfer_without_modifying_unsettled_map: every transfer it hands to the session after the first one of a delivery carries no delivery-tag (and no delivery-id), for every number of pieces -- two, three or more; the session gives a fresh delivery-id to whatever carries a tag, so a tagged continuation splits one delivery into two ids"
+    fn = env.fn(r"^sender_link::<impl at [^>]*>::send_transfer_without_modifying_unsettled_map::\{closure#0\}$")
+    o.functions = [fn.name]
+    states = _coroutine_states(fn)
+    o.bounds = [f"coroutine body from every resume state {states} through one poll; loops unrolled 2 times per poll; the tag of the saved transfer per resume state is a fixed point of the transfer function (None / anything); every payload length and max-message-size"]
+    o.assumes = ["Transfer::clone copies the tag's presence; send_transfer hands exactly the transfer it was given to the session"]
+    TF = env.structs.get("Transfer")
+    if TF is None:
+        raise mir.Unsupported("struct Transfer not found")
+    i_tag, i_id = env.fidx("Transfer", "delivery_tag"), env.fidx("Transfer", "delivery_id")
+    m = re.search(r"as (variant#\d+)\)\.(\d+): [\w:]*Transfer\)", "\n".join(t for b in fn.blocks.values() for t in (b[0] + [b[1]])))
+    if not m:
+        raise mir.Unsupported("saved Transfer not found in the coroutine layout")
+    var, fld = m.group(1), int(m.group(2))
+
+    def opt(d):
+        a = mir.Agg("Option")
+        a["#d"] = d
+        return a
+
+    def m_clone(ex_, st, callee, args, argvals, dty):
+        x = argvals[0]
+        k = 0
+        while isinstance(x, mir.Ref) and k < 4:
+            cont, key = ex_.resolve(st, list(x.path))
+            x = cont.get(key)
+            k += 1
+        if not isinstance(x, mir.Agg):
+            return None
+        c = mir.Agg("Transfer")
+        for j in (i_tag, i_id):
+            v = x.get(j)
+            if isinstance(v, mir.Agg) and "#d" in v:
+                c[j] = opt(v["#d"])
+        return c
+
+    models = [(r"^<(fe2o3_amqp_types::)?(performatives::)?Transfer as Clone>::clone$", m_clone)]
+
+    def run(k, tag_none):
+        ex = env.executor(max_visits=_mv(2, 3))
+        ex.max_paths = 4000
+        ex.models = models
+        cor = mir.Agg("coroutine")
+        cor["#d"] = z3.BitVecVal(k, 64)
+        T = mir.Agg("Transfer")
+        dt = z3.BitVec(f"saved.delivery_tag.is_some@{k}", 64)
+        di = z3.BitVec(f"saved.delivery_id.is_some@{k}", 64)
+        T[i_tag], T[i_id] = opt(dt), opt(di)
+        hyp = [z3.ULE(dt, 1), z3.ULE(di, 1)]
+        if tag_none:
+            hyp.append(dt == 0)
+        if k == 0:
+            # initial state: the transfer is the argument (upvar) -- saved slot not live yet
+            cor_fields = {}
+            # arguments of the async fn live in the coroutine's unnamed fields; find the Transfer-typed one
+            am = re.search(r"= move \(\(\*_\d+\)\.(\d+): [\w:]*Transfer\)", "\n".join(t for b in fn.blocks.values() for t in (b[0] + [b[1]])))
+            if not am:
+                raise mir.Unsupported("Transfer argument not found in the coroutine")
+            cor[int(am.group(1))] = T
+        else:
+            sv = mir.Agg(var)
+            sv[fld] = T
+            cor[("as", var)] = sv
+        pin = mir.Agg("pin")
+        pin[0] = mir.Ref(("@cor",), True)
+        paths = ex.run(fn, {"_1": pin, "@cor": cor})
+        return ex, paths, hyp
+
+    def saved_tag(p):
+        c = p.locals.get("@cor")
+        sv = c.get(("as", var)) if isinstance(c, mir.Agg) else None
+        T = sv.get(fld) if isinstance(sv, mir.Agg) else None
+        t = T.get(i_tag) if isinstance(T, mir.Agg) else None
+        return t.get("#d") if isinstance(t, mir.Agg) else None
+
+    def valid(hyps, goal):
+        s = z3.Solver()
+        s.set("timeout", 20000)
+        s.add(*hyps)
+        s.add(z3.Not(goal))
+        return s.check() == z3.unsat
+
+    # fixed point of "the saved transfer's tag is None" per resume state
+    fact = {0: False}  # state -> tag definitely None?
+    runs = {}
+    work = [0]
+    while work:
+        k = work.pop()
+        ex, paths, hyp = run(k, fact[k])
+        runs[k] = (ex, paths, hyp)
+        for p in paths:
+            if p.end != "return":
+                continue
+            e = _end_state(p)
+            if e in (None, 1, 2) or e not in states:
+                continue
+            d = saved_tag(p)
+            none_here = d is not None and valid(ex.assumptions + hyp + p.cond, d == 0)
+            new = none_here if e not in fact else (fact[e] and none_here)
+            if e not in fact or new != fact[e]:
+                fact[e] = new
+                work.append(e)
+    o.bounds.append("tag of the saved transfer per resume state: " + ", ".join(f"{k}:{'None' if v else 'any'}" for k, v in sorted(fact.items())))
+
+    def replay(mdl):
+        cmds = ["scn link_split 2", "scn link_split 3", "scn link_split 4"]
+        return cmds, (lambda outs: any(js.get("panic") or not js["one_delivery_id"] or not js["received_intact"] for js in outs))
+
+    n = later = 0
+    for k, (ex, paths, hyp) in sorted(runs.items()):
+        for i, p in enumerate(paths):
+            if p.end != "return":
+                continue
+            n += 1
+            sends = [c for c in p.calls if re.search(r"(^|::)send_transfer$", c[0])]
+            for j, c in enumerate(sends):
+                if k == 0 and j == 0:
+                    continue  # the first frame of the delivery carries the caller's tag
+                later += 1
+                T = c[1][2] if len(c[1]) > 2 else None
+                t = T.get(i_tag) if isinstance(T, mir.Agg) else None
+                d = t.get("#d") if isinstance(t, mir.Agg) else None
+                if d is None:
+                    o.prove(f"state{k}:path{i}:send{j}:continuation-carries-no-tag", ex.assumptions + hyp + p.cond, z3.BoolVal(False), replay=replay)
+                else:
+                    o.prove(f"state{k}:path{i}:send{j}:continuation-carries-no-tag", ex.assumptions + hyp + p.cond, d == 0, replay=replay)
+    o.cover("paths", [z3.BoolVal(n > 0)])
+    o.cover("continuation frames seen", [z3.BoolVal(later >= 2)])
+    return [o]
+
+
+REGISTRY.setdefault("C11", []).append(c11_link_splitter)
+
+
+# ---- C10 / C01: reassembly appends each frame's payload once, at the end, and delivers the whole buffer --------
+
+
+def c10_reassembly_order(env):
+    o = Obligation("c10_reassembly_appends_each_payload_once_at_the_end", "C10")
+    o.desc = "Reassembly of a multi-frame delivery: IncompleteTransfer::append puts the payload it is given at the END of the chunk list (one Vec::push of exactly that payload onto self.buffer on every path, no other mutation of the list); ReceiverInner::on_incomplete_transfer and on_complete_transfer hand the frame's own payload to append exactly once when a delivery is being reassembled (or start one with it), and the completed delivery is decoded from the whole chunk list"
+    out_fns = []
+    f_buf = env.fidx("IncompleteTransfer", "buffer")
+    marker = z3.BitVec("payload.identity", 64)
+
+    def payload():
+        a = mir.Agg("payload")
+        a["@id"] = marker
+        return a
+
+    def is_payload(x):
+        return isinstance(x, mir.Agg) and x.get("@id") is not None and x.get("@id").eq(marker)
+
+    def replay(m):
+        cmds = ["scn e2e 512 0 2048 1200 3 333", "scn e2e 512 16 2048 40 3 9"]
+        return cmds, (lambda outs: any(js.get("panic") or not js["intact"] for js in outs))
+
+    # (a) append
+    fn = env.fn(r"^incomplete_transfer::<impl at [^>]*>::append$")
+    out_fns.append(fn.name)
+    ex = env.executor(max_visits=3)
+    IT = mir.Agg("incomplete")
+    IT[f_buf] = mir.Agg("chunks")
+    sn, sn_d, _ = opt_u32("pre.section_number")
+    IT[env.fidx("IncompleteTransfer", "section_number")] = sn
+    IT[env.fidx("IncompleteTransfer", "section_offset")] = z3.BitVec("pre.section_offset", 64)
+    ex.assumptions.append(z3.ULE(sn_d, 1))
+    paths = ex.run(fn, {"_1": mir.Ref(("@self",), True), "@self": IT, "_2": payload()})
+    n = 0
+    for i, p in enumerate(paths):
+        if p.end != "return":
+            continue
+        n += 1
+        vec_ops = [c for c in p.calls if re.search(r"^Vec::<(bytes::)?Bytes>::", c[0])]
+        pushes = [c for c in vec_ops if re.search(r"::push$", c[0])]
+        others = [c for c in vec_ops if not re.search(r"::(push|len|is_empty|capacity)$", c[0])]
+        o.prove(f"append:path{i}:one-push-at-the-end", ex.assumptions + p.cond, z3.BoolVal(len(pushes) == 1 and not others), replay=replay)
+        for c in pushes:
+            tgt = c[1][0]
+            on_buffer = isinstance(tgt, mir.Ref) and list(tgt.path)[-1:] == [("f", f_buf)]
+            o.prove(f"append:path{i}:onto-the-chunk-list-of-this-delivery", ex.assumptions + p.cond, z3.BoolVal(bool(on_buffer)), replay=replay)
+            o.prove(f"append:path{i}:the-payload-it-was-given", ex.assumptions + p.cond, z3.BoolVal(is_payload(c[1][1])), replay=replay)
+    o.cover("append paths", [z3.BoolVal(n > 0)])
+
+    # (b) the two handlers
+    f_inc = env.fidx("ReceiverInner", "incomplete_transfer")
+    for which, pat, is_co in (("on_incomplete_transfer", r"^receiver::<impl at [^>]*>::on_incomplete_transfer$", False), ("on_complete_transfer", r"^receiver::<impl at [^>]*>::on_complete_transfer::\{closure#0\}$", True)):
+        fn = env.fn(pat)
+        out_fns.append(fn.name)
+        ex = env.executor(max_visits=3)
+        ex.max_paths = 3000
+
+        def m_take(ex_, st, callee, args, argvals, dty):
+            ref = argvals[0]
+            if not isinstance(ref, mir.Ref):
+                raise mir.Unsupported("Option::take on something that is not a tracked place")
+            cont, key = ex_.resolve(st, list(ref.path))
+            old = cont.get(key)
+            new = mir.Agg("None")
+            new["#d"] = z3.BitVecVal(0, 64)
+            cont[key] = new
+            return old if old is not None else mir.Agg("taken")
+
+        ex.models = [(r"Option::<Box<IncompleteTransfer>>::take$", m_take)]
+        R = mir.Agg("receiver")
+        inc = mir.Agg("incomplete_transfer")
+        inc_d = z3.BitVec(f"{which}.pre.incomplete_transfer.is_some", 64)
+        inc["#d"] = inc_d
+        R[f_inc] = inc
+        hyp0 = [z3.ULE(inc_d, 1)]
+        if is_co:
+            # arguments of the async fn are the coroutine's first fields: self, transfer, payload
+            am = re.search(r"= move \(\(\*_\d+\)\.(\d+): (bytes::)?Bytes\)", "\n".join(t for b in fn.blocks.values() for t in (b[0] + [b[1]])))
+            sm = re.search(r"\(\(\*_\d+\)\.(\d+): &mut (link::)?(receiver::)?ReceiverInner<", "\n".join(t for b in fn.blocks.values() for t in (b[0] + [b[1]])))
+            if not am or not sm:
+                raise mir.Unsupported("arguments of on_complete_transfer not found in the coroutine")
+            pin, cor = coroutine_start(env, "@self", {})
+            del cor[0]
+            cor[int(sm.group(1))] = mir.Ref(("@self",), True)
+            cor[int(am.group(1))] = payload()
+            paths = ex.run(fn, {"_1": pin, "@cor": cor, "@self": R})
+        else:
+            paths = ex.run(fn, {"_1": mir.Ref(("@self",), True), "@self": R, "_2": mir.Agg("transfer"), "_3": payload()})
+        n = 0
+        for i, p in enumerate(paths):
+            if p.end != "return" or not isinstance(p.ret, mir.Agg) or "#d" not in p.ret:
+                continue
+            apps = [c for c in p.calls if re.search(r"IncompleteTransfer::append$", c[0])]
+            news = [c for c in p.calls if re.search(r"IncompleteTransfer::new$", c[0])]
+            merged = count_calls(p, r"IncompleteTransfer::or_assign$")
+            errs = [c for c in p.calls if re.search(r"from_residual$", c[0])]
+            if errs:
+                continue  # a contradiction reported by or_assign (C10's Kani harness) ends the path
+            n += 1
+            H = ex.assumptions + hyp0 + p.cond
+            if which == "on_incomplete_transfer":
+                o.prove(f"{which}:path{i}:payload-recorded-once", H, z3.BoolVal(len(apps) + len(news) == 1), replay=replay)
+                o.prove(f"{which}:path{i}:appended-iff-a-delivery-is-buffered", H, z3.BoolVal(len(apps) == 1) == (inc_d == 1), replay=replay)
+            else:
+                o.prove(f"{which}:path{i}:appended-iff-a-delivery-is-buffered", H, z3.BoolVal(len(apps) == 1) == (inc_d == 1), replay=replay)
+                o.prove(f"{which}:path{i}:never-appended-twice", H, z3.BoolVal(len(apps) <= 1 and not news), replay=replay)
+            for c in apps:
+                o.prove(f"{which}:path{i}:what-is-appended-is-this-frames-payload", H, z3.BoolVal(is_payload(c[1][1]) and merged == 1), replay=replay)
+            for c in news:
+                o.prove(f"{which}:path{i}:a-new-delivery-starts-with-this-frames-payload", H, z3.BoolVal(is_payload(c[1][1])), replay=replay)
+        o.cover(f"{which} paths", [z3.BoolVal(n > 1)])
+    o.functions = out_fns
+    o.bounds = ["one call of each function (the coroutine through its first poll); a delivery already buffered or not; every path"]
+    o.assumes = ["Vec::push appends at the end, Option::take leaves None behind (std contracts); or_assign / the section decoder are C10's other checks"]
+    return [o]
+
+
+REGISTRY.setdefault("C10", []).append(c10_reassembly_order)
+
+
+# ---- C01 (partial): the order / once / intact kernels along the path of a message ------------------------------
+# Each is an obligation of C06/C07/C10/C11 run again under C01's name: C01 itself (all six tasks, every schedule)
+# is not decided; what is decided is that each step a message goes through keeps it whole, single and in order.
+
+
+def _under(gen, prop, frm, to, keep=None):
+    def g(env):
+        out = []
+        for o in gen(env):
+            if keep and not re.search(keep, o.name):
+                continue
+            o.prop = prop
+            o.name = o.name.replace(frm, to, 1)
+            out.append(o)
+        return out
+
+    g.__name__ = gen.__name__ + "@" + prop
+    return g
+
+
+REGISTRY["C01"] = [
+    _under(c07_fifo_order, "C01", "c07_", "c01_"),
+    _under(c11_link_splitter, "C01", "c11_", "c01_"),
+    _under(c06_transfer_split, "C01", "c06_", "c01_"),
+    _under(c06_start_send_chunks, "C01", "c06_", "c01_"),
+    _under(c10_reassembly_order, "C01", "c10_", "c01_"),
+    _under(c10_partial_frame_recorded, "C01", "c10_", "c01_"),
+    _under(c10_reader, "C01", "c10_", "c01_"),
+]
